@@ -241,9 +241,10 @@ def run(tier):
     else:
         cases4 = enum_cases(ck, 4, 4, 3, "world4x4")
         ck.set("configurations_4x4_up_to_symmetry", len(cases4))
-        j3, c3 = make_jobs(cases3, planners, 700, 1, rng)
-        j4, c4 = make_jobs(cases4, planners, 120, 2, rng)
-        jobs, chosen = j3 + j4 + directional_jobs(cases3, planners, 60, rng), c3 + c4
+        # (sized for about an hour on 16 cores: every run is its own process and parameters are swept)
+        j3, c3 = make_jobs(cases3, planners, 250, 1, rng)
+        j4, c4 = make_jobs(cases4, planners, 40, 2, rng)
+        jobs, chosen = j3 + j4 + directional_jobs(cases3, planners, 30, rng), c3 + c4
     jpath = os.path.join(WORK, "c01-jobs.ndjson")
     vlib.write_ndjson(jpath, jobs)
     trace, total, notes = planrun.run_sharded(binary, "c01", jpath, os.path.join(WORK, "c01-trace"))
